@@ -530,3 +530,31 @@ pub fn nth_case<S: Strategy>(strategy: &S, seed: u64, k: u64) -> S::Value {
     }
     v
 }
+
+/// Silences fd 2 while alive (the library `dbg!`s on some unimplemented paths, once per case).
+pub struct StderrMute {
+    saved: i32,
+}
+impl StderrMute {
+    pub fn new() -> StderrMute {
+        unsafe {
+            let saved = libc::dup(2);
+            let null = libc::open(b"/dev/null\0".as_ptr() as *const libc::c_char, libc::O_WRONLY);
+            if saved >= 0 && null >= 0 {
+                libc::dup2(null, 2);
+                libc::close(null);
+            }
+            StderrMute { saved }
+        }
+    }
+}
+impl Drop for StderrMute {
+    fn drop(&mut self) {
+        unsafe {
+            if self.saved >= 0 {
+                libc::dup2(self.saved, 2);
+                libc::close(self.saved);
+            }
+        }
+    }
+}
